@@ -42,6 +42,8 @@ def check_circuit(n, prog, env, acc, mpl_every):
         case = {**case0, "display_type": dt, "display_loss": loss, "show_parameter_values": vals,
                 "mode_labels": labels}
         acc.tick("executions"); acc.tick("transitions")
+        labels = list(labels) if labels is not None else None      # a fresh caller-owned list per call
+        labels0 = list(labels) if labels is not None else None
         try:
             r = lw.Display(c, display_loss=loss, mode_labels=labels, display_type=dt, show_parameter_values=vals)
             err = None
@@ -49,6 +51,8 @@ def check_circuit(n, prog, env, acc, mpl_every):
             r, err = None, e
         finally:
             plt.close("all")
+        if labels != labels0:
+            acc.violation("display_changed_its_label_argument", case, {"before": labels0, "after": labels})
         if expect is None:
             if err is not None:
                 acc.violation("display_raises", case, {"error": repr(err)})
